@@ -61,6 +61,7 @@ def check(rep, an, tier):
         R.rule_type_errors(rep, res, "SHAPE", "R-SHAPE", entry)
         R.rule_purity(rep, res, entry)
         R.rule_index_space(rep, res, entry)
+        R.rule_count_denominator(rep, res, entry)
         CC.rank_of_extents(rep, res, entry)
         R.rule_dtype(rep, res, entry)
         R.rule_iterator_reuse(rep, res, entry)
@@ -85,7 +86,7 @@ def check(rep, an, tier):
         for ev in res.events("ext_call"):
             if ev.d["dotted"] in ("numpy.linalg.lstsq", "scipy.linalg.lstsq", "numpy.linalg.pinv", "scipy.linalg.pinv") and ev.loops:
                 lq0, lno0 = ev.loops[-1]
-                loop0 = next((n for n in _ast.walk(ev.fn.node) if isinstance(n, _ast.For) and n.lineno == lno0), None)
+                loop0 = _loop_node(res, lq0, lno0)
                 if loop0 is not None and "combinations(" in norm_text(loop0.iter):
                     rep.violated("R-DISPATCH", "vertices of the solution set are exact solutions of their sub-system", where=ev.loc,
                                  construct=ev.text()[:80], entry=entry, config=res.config,
@@ -97,7 +98,7 @@ def check(rep, an, tier):
                 continue
             # which kind of loop encloses the solve: an enumeration of source subsets (itertools.combinations) or a walk along a range?
             lq, lno = ev.loops[-1]
-            loop = next((n for n in _ast.walk(ev.fn.node) if isinstance(n, _ast.For) and n.lineno == lno), None)
+            loop = _loop_node(res, lq, lno)
             it = norm_text(loop.iter) if loop is not None else ""
             if "combinations(" in it:
                 hs = [x for h in ev.handlers for x in (h if isinstance(h, (tuple, list)) else (h,))]
@@ -208,6 +209,16 @@ def check(rep, an, tier):
     rep.require("R-QTY", 20)
     rep.require("R-DISPATCH", 4)
     rep.require("R-FORWARD", 10)
+
+
+def _loop_node(res, qual, lineno):
+    """the `for` statement a loop id (function qual, line) refers to — the loop may live in a caller of the function that holds the event"""
+    import ast as _ast
+    mod, _, name = qual.partition(":")
+    fn = res.ctx.model.method(mod, *name.split(".")) if "." in name else res.ctx.model.func(mod, name)
+    if fn is None:
+        return None
+    return next((n for n in _ast.walk(fn.node) if isinstance(n, _ast.For) and n.lineno == lineno), None)
 
 
 def permutation_restore(rep, res):
